@@ -340,7 +340,7 @@ func (w *World) Enabled() []Op {
 				add(Op{K: "FOREIGN_ADD", A: f.Key})
 			}
 		} else {
-			if len(f.Res2) > 0 && m.ForeignV[f.Key] == 1 {
+			if len(f.Res2) > 0 && (m.ForeignV[f.Key] == 1 || m.ForeignV[f.Key] == 2) {
 				add(Op{K: "FOREIGN_UPDATE", A: f.Key})
 			}
 			add(Op{K: "FOREIGN_REMOVE", A: f.Key})
@@ -749,8 +749,9 @@ func (w *World) Apply(op Op) *Step {
 		f = func() {
 			w.sendAlloc(nil, []*si.AllocationRelease{{PartitionName: PartitionName, ApplicationID: op.A, AllocationKey: "", TerminationType: si.TerminationType_STOPPED_BY_RM, Message: "shim releases everything"}})
 		}
+		// the core drops the allocations and, with them, every outstanding ask of the application
 		for _, k := range sortedKeys(m.Keys) {
-			if ks := m.Keys[k]; ks.App == op.A && ks.State == "bound" {
+			if ks := m.Keys[k]; ks.App == op.A && (ks.State == "bound" || ks.State == "ask") {
 				delete(m.Keys, k)
 			}
 		}
@@ -758,8 +759,13 @@ func (w *World) Apply(op Op) *Step {
 		fs := s.ForeignSpec(op.A)
 		res := fs.Res
 		if op.K == "FOREIGN_UPDATE" {
-			res = fs.Res2
-			m.ForeignV[fs.Key] = 2
+			// first update: to the second size; second update: back to the size it was registered with
+			if m.ForeignV[fs.Key] == 1 {
+				res = fs.Res2
+				m.ForeignV[fs.Key] = 2
+			} else {
+				m.ForeignV[fs.Key] = 3
+			}
 		} else {
 			m.ForeignV[fs.Key] = 1
 		}
